@@ -927,6 +927,36 @@ pub fn f9(b: &Bounds) -> Vec<GenProg> {
     out
 }
 
+/// F10: bound queries over recursive relations in the form the `?p(1, Y)` shorthand desugars to
+/// (`__query__(C, Y) <- p(C, Y), C = 1`): the only form the magic-sets rewrite looks at.
+pub fn f10(b: &Bounds) -> Vec<GenProg> {
+    let base: Vec<Clause> = vec![clause("p", &[X, Y], vec![pos("e", &[X, Y])]), clause("p", &[Y, X], vec![pos("e", &[X, Y])])];
+    let steps: Vec<Clause> = vec![
+        clause("p", &[X, Z], vec![pos("p", &[X, Y]), pos("e", &[Y, Z])]),
+        clause("p", &[X, Z], vec![pos("e", &[X, Y]), pos("p", &[Y, Z])]),
+        clause("p", &[X, Z], vec![pos("p", &[X, Y]), pos("p", &[Y, Z])]),
+        clause("p", &[X, Z], vec![pos("p", &[X, Y]), pos("f", &[Y, Z])]),
+        clause("p", &[X, Z], vec![pos("p", &[X, Y]), pos("e", &[Y, Z]), pos("n", &[Z])]),
+    ];
+    let consts: &[i64] = if b.quick { &[1, 2] } else { &[1, 2, 3] };
+    let mut out = vec![];
+    for bc in &base {
+        for st in &steps {
+            for k in consts {
+                let queries = vec![
+                    clause("__query__", &[X, Y], vec![pos("p", &[X, Y]), Lit::Cmp(X, CmpOp::Eq, Const(*k))]),
+                    clause("__query__", &[X, Y], vec![pos("p", &[X, Y]), Lit::Cmp(Y, CmpOp::Eq, Const(*k))]),
+                    clause("__query__", &[X, Y], vec![pos("p", &[X, Y]), Lit::Cmp(X, CmpOp::Eq, Const(*k)), Lit::Cmp(Y, CmpOp::Eq, Const(3 - *k.min(&2)))]),
+                ];
+                for qc in queries {
+                    out.push(GenProg { family: "F10magic", prog: Program { clauses: vec![bc.clone(), st.clone(), qc] } });
+                }
+            }
+        }
+    }
+    out
+}
+
 pub fn all_families(b: &Bounds, which: &[&str]) -> Vec<GenProg> {
     let mut out = vec![];
     for w in which {
@@ -940,6 +970,7 @@ pub fn all_families(b: &Bounds, which: &[&str]) -> Vec<GenProg> {
             "F7" => out.extend(f7()),
             "F8" => out.extend(f8(b)),
             "F9" => out.extend(f9(b)),
+            "F10" => out.extend(f10(b)),
             _ => panic!("unknown family {w}"),
         }
     }
